@@ -92,7 +92,8 @@ std::string RunCsvFault(const vh::JVal& scn, const std::string& kind, long long 
 		const bool streamIn = !isSave && (kind == "failat" || kind == "throwat" || wantStream);
 		const bool streamOut = isSave && (kind == "ofailat" || kind == "othrowat" || wantStream);
 		if (streamIn) holder = MakeStream(kind == "failat" || kind == "throwat" ? kind : "short3", doc, static_cast<size_t>(k));
-		if (streamOut) { obuf = std::make_unique<FailingOutBuf>(kind == "ofailat" || kind == "othrowat" ? static_cast<size_t>(k) : static_cast<size_t>(-1), kind == "othrowat"); ostr = std::make_unique<std::ostream>(obuf.get()); }
+		if (streamOut) { obuf = std::make_unique<FailingOutBuf>(kind == "ofailat" || kind == "othrowat" ? static_cast<size_t>(k) : static_cast<size_t>(-1), kind == "othrowat"); ostr = std::make_unique<std::ostream>(obuf.get());
+			if (scn.HasMember("oexc") && scn["oexc"].GetBool()) ostr->exceptions(std::ios_base::badbit | std::ios_base::failbit); }
 		liveBefore = AllocLive();
 		vh::ScopeRecordStart();
 		AllocArm(kind == "alloc" ? k : -1);
